@@ -232,6 +232,26 @@ def mon_C10(h, ents, pend, raw):
                 out.append(("comms-collection-size", "comms::server retains %d connections, fewer than http_server's %d" % (nc, nh)))
             if nc > len(started - closed):
                 out.append(("closed-connection-retained", "comms::server retains %d connections, only %d sockets are not closed" % (nc, len(started - closed))))
+    if h["name"] == "crowd":
+        # every request in these histories is a complete valid one on an open connection, and every connection is closed in the end:
+        # each must be served whatever happened to the others, and each must be told of its own disconnection
+        asked, served = {}, {}
+        for ev in h["events"]:
+            m = re.match(r"R(\d+):", ev)
+            if m:
+                asked[int(m.group(1))] = asked.get(int(m.group(1)), 0) + 1
+        for e in ents:
+            m = re.match(r"c(\d+):req=", e)
+            if m:
+                served[int(m.group(1))] = served.get(int(m.group(1)), 0) + 1
+        lost = sorted(c for c in asked if served.get(c, 0) < asked[c])
+        if lost:
+            out.append(("other-connection-disturbed", "after other connections were closed, %d connection(s) no longer get their requests delivered (first: c%d, %d of %d)" %
+                        (len(lost), lost[0], served.get(lost[0], 0), asked[lost[0]])))
+        gone = sorted(int(m.group(1)) for m in (re.match(r"[ED](\d+)", ev) for ev in h["events"]) if m)
+        quiet = [c for c in gone if c in connected and c not in disconnected]
+        if quiet:
+            out.append(("no-disconnected-event", "%d connection(s) were closed but never got the disconnected event (first: c%d)" % (len(quiet), quiet[0])))
     return out
 
 
@@ -377,12 +397,36 @@ MONITORS = {"C03": mon_C03, "C04": mon_C04, "C09": mon_C09, "C10": mon_C10, "C11
             "C15": mon_C15, "C19": mon_C19, "C20": mon_C20}
 
 
-def run_sim(chk, flavour="plain", only=None):
-    H = histories(chk)
+def crowd_histories(chk):
+    """many connections at once, closed one at a time, the survivors served in between: the connection collections
+    (std::set / std::map, or threadsafe_hash_map in the HTTP_THREAD_SAFE build) hold dozens of entries"""
+    rng = chk.rng
+    H = []
+    for k in range(2 if chk.tier == "quick" else 12):
+        n = rng.choice([40, 60, 90])
+        ev = ["A"] * n
+        order = list(range(1, n + 1))
+        if k % 2:
+            rng.shuffle(order)
+        alive = list(order)
+        for j, c in enumerate(order):
+            ev.append(rng.choice(["E%d:eof", "E%d:reset", "D%d"]) % c)
+            alive.remove(c)
+            if j % 10 == 9 or j == 0:
+                for a in alive:
+                    ev += ["R%d:%s" % (a, hexs(S.Req().bytes())), "W%d" % a]
+        ev.append("B")
+        H.append(dict(name="crowd", flav="tcp", opts="app=sync", events=ev, reqs=None))
+    return H
+
+
+def run_sim(chk, flavour="plain", only=None, H=None, extra=None, label="h_sim"):
+    keep = H is not None
+    H = H if keep else histories(chk)
     if only:
         H = [h for h in H if only(h)]
     cases = [case_of(h) for h in H]
-    pairs, diffs = chk.correspond("h_sim", cases, flavour=flavour, canon=lambda c, x: S.canon(x), label="h_sim")
+    pairs, diffs = chk.correspond("h_sim", cases, flavour=flavour, canon=lambda c, x: S.canon(x), label=label, extra=extra)
     mon = MONITORS[chk.pid]
     dist = {}
     ndiff = 0
@@ -409,9 +453,12 @@ def run_sim(chk, flavour="plain", only=None):
             ndiff += 1
             if ndiff <= 20:
                 k = next((j for j in range(min(len(m2), len(i2))) if m2[j] != i2[j]), min(len(m2), len(i2)))
-                chk.broken.append("correspondence h_sim: history `%s` (%s %s) differs at ...model: %s ...impl: %s  case: %s" %
+                chk.broken.append("correspondence " + label + ": history `%s` (%s %s) differs at ...model: %s ...impl: %s  case: %s" %
                                   (h["name"], h["flav"], h["opts"], m2[max(0, k - 80):k + 80], i2[max(0, k - 80):k + 80], c[:400]))
-    chk.cov["correspondence"]["h_sim"]["differences"] = ndiff
+    chk.cov["correspondence"][label]["differences"] = ndiff
+    if keep:
+        chk.cov.setdefault("extra_histories", {})[label] = dist
+        return pairs
     chk.cov["input_distribution"] = dist
     chk.cov["samples"] = [pairs[j][0][:300] + " => " + pairs[j][2][:300] for j in (0, len(pairs) // 2) if j < len(pairs)]
     chk.cov["traces_validated_against_impl"] = len(pairs)
@@ -430,6 +477,9 @@ def replay(body):
     case = r.get("case")
     if not case:
         print("nothing to replay: " + json.dumps(r)[:500]); return 1
+    if r.get("harness") == "h_real":
+        import realcheck
+        return realcheck.replay(body)
     hb, _ = vlib.build_harness("h_sim")
     out, _ = vlib.run_cases_resilient(hb, [case])
     print("case: %s\nimpl log: %s" % (case[:500], out[0][:2000] if out else "?"))
